@@ -72,6 +72,11 @@ impl TimeZone {
             None
         };
 
+        // Without a footer rule every lookup needs a local time type
+        if extra_rule.is_none() && local_time_types.is_empty() {
+            return Err(TimeZoneError::InvalidTzFile("No local time types found"));
+        }
+
         Ok(Self {
             transitions,
             local_time_types,
